@@ -296,8 +296,10 @@ def gen_chain(rng, ty, chars=WS_YANG, p_mut=0.25, depth=None):
     levels = []
     base = None
     for d in range(depth):
-        if d and rng.random() < 0.12:
-            texts.append(None)
+        if d and rng.random() < (0.3 if ty.name == "string" else 0.12):
+            # no restriction of its own: the compiled type of the base is shared; for strings also a level with only a
+            # pattern, which COPIES the inherited (possibly multi-part) length
+            texts.append("~p" if ty.name == "string" and rng.random() < 0.7 else None)
             continue
         parts = pick_parts(rng, ty, inside=base)
         parts = with_keywords(rng, ty, parts, base)
@@ -311,7 +313,8 @@ def gen_chain(rng, ty, chars=WS_YANG, p_mut=0.25, depth=None):
 
 
 def chain_line(ty, texts, values):
-    return "chain\t%s\t%d\t%s\t%d%s" % (ty.key(), len(texts), "\t".join("~" if t is None else hexs(t.encode("latin-1")) for t in texts),
+    """a text None = typedef without a restriction; "~p" = (string) typedef that adds only a pattern"""
+    return "chain\t%s\t%d\t%s\t%d%s" % (ty.key(), len(texts), "\t".join("~" if t is None else "~p" if t == "~p" else hexs(t.encode("latin-1")) for t in texts),
                                       len(values), "".join("\t" + hexs(v) for v in values))
 
 
@@ -642,7 +645,7 @@ class RestrictRfc:
             for d in range(depth):
                 r = rng.random()
                 if d and r < 0.1:
-                    texts.append(None)
+                    texts.append("~p" if ty.name == "string" and rng.random() < 0.6 else None)
                     continue
                 if label == "-" and r < 0.1:
                     # chains with touching base parts need a base that has them
@@ -679,7 +682,7 @@ class RestrictRfc:
         f = line.split("\t")
         ty = Ty(f[1], int(f[2]))
         n = int(f[3])
-        texts = [None if h == "~" else unhex(h).decode("latin-1") for h in f[4:4 + n]]
+        texts = [None if h in ("~", "~p") else unhex(h).decode("latin-1") for h in f[4:4 + n]]
         nv = int(f[4 + n])
         vals = [unhex(h).decode("latin-1") for h in f[5 + n:5 + n + nv]]
         label = f[5 + n + nv][1:] if len(f) > 5 + n + nv else "-"
